@@ -18,11 +18,14 @@ RULE = ("All 1440 minutes of the day x every clock notation of the frozen vocabu
         "spoken form, or a latent case answered on the next day.")
 
 F24 = ["{h}:{mi:02d}", "{h:02d}:{mi:02d}", "{h}h{mi:02d}", "{h}uhr{mi:02d}", "{h}:{mi:02d} Uhr", "{h:02d}:{mi:02d}h",
-       "{h:02d}:{mi:02d} uhr", "{h:02d}{mi:02d} Uhr", "{h:02d}{mi:02d}h", "um {h}:{mi:02d}", "at {h:02d}:{mi:02d}"]
+       "{h:02d}:{mi:02d} uhr", "{h:02d}{mi:02d} Uhr", "{h:02d}{mi:02d}h", "um {h}:{mi:02d}", "at {h:02d}:{mi:02d}",
+       # the remaining absorbed prepositions (rules.py ruleAbsorbOnTime)
+       "approx. {h:02d}:{mi:02d}", "approx {h}:{mi:02d}", "ca. {h}:{mi:02d}", "gegen {h}:{mi:02d} Uhr"]
 F12 = ["{h12}:{mi:02d}{ap}", "{h12}:{mi:02d} {ap}", "{h12}:{mi:02d} {a_p}", "{h12}.{mi:02d}{AP}", "{h12:02d}:{mi:02d}{ap}",
        "{h12}:{mi:02d}{a_p}", "at {h12}:{mi:02d} {AP}",
        # the marker pattern is [ap]\.?m\.? : one dot only ('p.m', sentence-final 'pm.') is a spelling too
-       "{h12}:{mi:02d} {a_p1}", "{h12}:{mi:02d}{ap}.", "{h12}:{mi:02d} {ap}."]
+       "{h12}:{mi:02d} {a_p1}", "{h12}:{mi:02d}{ap}.", "{h12}:{mi:02d} {ap}.",
+       "about {h12}:{mi:02d}{ap}", "around {h12}:{mi:02d} {ap}"]
 HOUR24 = ["{h} Uhr", "{h} uhr", "{h}uhr", "{h} o'clock", "{h} oclock", "{h:02d} Uhr", "um {h} Uhr"]
 HOUR12 = ["{h12}{ap}", "{h12} {ap}", "{h12} {a_p}", "{h12}{AP}", "at {h12}{ap}", "{h12}{ap}.", "{h12} {a_p1}"]
 NAMED_EN = ["one", "two", "three", "four", "five", "six", "seven", "eight", "nine", "ten", "eleven", "twelve"]
@@ -34,6 +37,10 @@ SPOKEN = [  # (template, delta minutes relative to the named hour)
     ("quarter till {H}", -15), ("quarter of {H}", -15), ("viertel vor {H}", -15), ("half past {H}", 30),
     ("half after {H}", 30), ("halb nach {H}", 30), ("halb {H}", -30), ("half {H}", -30), ("half to {H}", -30),
     ("half before {H}", -30), ("halb vor {H}", -30),
+    # remaining alternatives of the four patterns (tools/vocab_audit.py)
+    ("one quarter to {H}", -15), ("one quarter past {H}", 15), ("a quarter after {H}", 15), ("a quarter of {H}", -15),
+    ("virtel vor {H}", -15), ("virtel nach {H}", 15), ("half till {H}", -30), ("half of {H}", -30), ("halfe past {H}", 30),
+    ("halfe to {H}", -30), ("halfe {H}", -30),
 ]
 POD_PM = ["in the afternoon", "in the evening", "at night", "abends", "nachmittags", "nachts", "tonight",
           # with early/late/very modifiers (rules.py:112-119): still the second half of the day
